@@ -1,13 +1,123 @@
 import Lean  -- WORKAROUND only: checks/common.py's audit snippet uses `CoreM`/`collectAxioms` without importing Lean; nothing below uses it
-import HqModel.Lemmas.AutoAllocLimits
+import HqModel.Lemmas.AutoAllocIndex
 /-!
-# C18 — allocation lifecycle is monotone; worker accounting exact  (theorems are added below step by step)
+# C18 — allocation lifecycle is monotone; worker accounting exact
+Model: `HqModel.AutoAlloc` (M6). The environment (batch system, worker notifications in any order, scheduler
+answer, clock, hash orders) is universally quantified in every statement.
 -/
 namespace HqModel.C18
 open HqModel.AutoAlloc
 
-/-- placeholder while the component is wired end-to-end (replaced by the real statements) -/
-theorem c18_wiring (t : Nat) (st : AState) (r : SyncReason) :
-    (syncState t st r).st.isActive = true → st.isActive = true := syncState_active t st r
+/-- **Monotone lifecycle.** For EVERY state `s` (reachable or not), every event `e` with any environment inputs,
+every queue `x` and allocation `a` of it: after the step either the queue was removed (and then `e` is exactly a
+`removeQueue x`), or the allocation is still there with the same size, its rank (Queued 0 < Running 1 < Finished*
+2) has not decreased, and if it was finished (normally or unexpectedly) it is literally unchanged (absorbing). -/
+theorem c18_monotone (s : State) (e : Ev) (x : Nat) (q : Queue) (a : Nat) (al : Alloc)
+    (hq : s.getQueue x = some q) (ha : q.findAlloc a = some al) :
+    ((∃ f, e = .removeQueue x f) ∧ (step s e).st.getQueue x = none) ∨
+    ∃ q' al', (step s e).st.getQueue x = some q' ∧ q'.findAlloc a = some al' ∧
+      al'.target = al.target ∧ al.st.rank ≤ al'.st.rank ∧ (al.st.isFinished = true → al' = al) := by
+  rcases step_queue s e x q hq with h | ⟨_, hres⟩ | ⟨q', hq', ht⟩
+  · exact .inl h
+  · exact .inr ⟨_, al, hres, ha, rfl, Nat.le_refl _, fun _ => rfl⟩
+  · obtain ⟨al', h1, h2, h3, h4⟩ := ht.allocMono a al ha
+    exact .inr ⟨q', al', hq', h1, h2, h3, h4⟩
+
+/-- Non-vacuity of `c18_monotone`: an allocation that walks Queued → Running → Finished and then ignores a
+contradictory external status and a late connect. -/
+example :
+    let s0 := init ⟨10, 20, 0⟩ 1
+    let s1 := (step s0 (.addQueue ⟨2, 1, none⟩ (Limiter.new [0] 2 3) none)).st
+    let s2 := (step s1 (.tick 0 [1] (.ok [1] []) [.ok 7])).st
+    let s3 := (step s2 (.workerConnected 4 7)).st
+    let s4 := (step s3 (.workerLost 4 7 false)).st
+    let s5 := (step s4 (.refresh [(1, .statuses [(7, .queued)])])).st
+    let s6 := (step s5 (.workerConnected 5 7)).st
+    [s2, s3, s4, s5, s6].map (fun s => (s.getQueue 1).bind fun q => (q.findAlloc 7).map (·.st.rank))
+      = [some 0, some 1, some 2, some 2, some 2] ∧ s6 = s4 := by
+  decide
+
+/-- **Unknown allocation.** A worker connect / loss that names an allocation which is not in the
+`allocation_to_queue` index changes nothing: the state is identical and nothing but the "schedule" flag is
+returned (no event, no call). -/
+theorem c18_unknown (s : State) (w a : Nat) (crashed : Bool) (h : a2qLookup a s.a2q = none) :
+    step s (.workerConnected w a) = ⟨s, [.sched true], none⟩ ∧
+    step s (.workerLost w a crashed) = ⟨s, [.sched true], none⟩ := by
+  simp [step, State.workerEvent, h]
+
+/-- **Queue removal.** If `removeQueue x force` is accepted (the queue exists; it has no running allocation or
+`force`) and does not hit the index assertion, then
+* `remove_allocation` is called exactly for the active (queued or running) allocations of the queue, once per
+  allocation (the list of calls IS the list of active allocations), and for nothing else;
+* the queue is gone, the `AllocationQueueRemoved` event is emitted;
+* every `allocation_to_queue` entry of its allocations is gone, so later worker events about them are
+  `c18_unknown` (state unchanged). -/
+theorem c18_remove_queue (s : State) (x : Nat) (force : Bool) (q : Queue)
+    (hq : s.getQueue x = some q)
+    (hacc : (q.allocs.any (·.st.isRunning) && !force) = false)
+    (hnp : (step s (.removeQueue x force)).panic = none) :
+    let r := step s (.removeQueue x force)
+    r.outs = ((q.allocs.filter (·.st.isActive)).map fun al => Out.rm x al.id) ++ [.evQRemoved x, .resp .ok, .sched false] ∧
+    r.st.getQueue x = none ∧
+    (∀ al ∈ q.allocs, a2qLookup al.id r.st.a2q = none) ∧
+    (∀ al ∈ q.allocs, ∀ w crashed,
+      step r.st (.workerConnected w al.id) = ⟨r.st, [.sched true], none⟩ ∧
+      step r.st (.workerLost w al.id crashed) = ⟨r.st, [.sched true], none⟩) := by
+  have hstep : ∀ m, State.removeA2qAll (q.allocs.map (·.id)) s.a2q = some m →
+      step s (.removeQueue x force) =
+        ⟨{ s with queues := s.queues.filter (·.id != x), a2q := m },
+         ((q.allocs.filter (·.st.isActive)).map fun al => Out.rm x al.id) ++ [.evQRemoved x, .resp .ok, .sched false],
+         none⟩ := by
+    intro m hm
+    simp only [step, State.removeQueue, hq, hacc, hm]
+    simp
+  cases hm : State.removeA2qAll (q.allocs.map (·.id)) s.a2q with
+  | none =>
+    simp only [step, State.removeQueue, hq, hacc, hm] at hnp
+    simp at hnp
+  | some m =>
+    have hs := hstep m hm
+    have hgone : ∀ al ∈ q.allocs, a2qLookup al.id m = none := by
+      intro al hal
+      exact removeA2qAll_lookup _ _ _ hm al.id (.inl (List.mem_map.mpr ⟨al, hal, rfl⟩))
+    simp only [hs]
+    refine ⟨trivial, ?_, hgone, ?_⟩
+    · rcases step_queue s (.removeQueue x force) x q hq with ⟨_, h⟩ | ⟨h, _⟩ | ⟨q', h, _⟩
+      · rw [hs] at h; exact h
+      · cases h
+      · exfalso
+        rw [hs] at h
+        simp only [State.getQueue, List.find?_filter] at h
+        have := List.find?_some h
+        simp at this
+    · intro al hal w crashed
+      exact c18_unknown _ w al.id crashed (hgone al hal)
+
+/-- A refused removal (unknown queue, or running allocations without `force`) has no effect at all. -/
+theorem c18_remove_queue_refused (s : State) (x : Nat) (force : Bool)
+    (h : s.getQueue x = none ∨ ∃ q, s.getQueue x = some q ∧ (q.allocs.any (·.st.isRunning) && !force) = true) :
+    (step s (.removeQueue x force)).st = s ∧ (step s (.removeQueue x force)).panic = none ∧
+    ∀ y a, Out.rm y a ∉ (step s (.removeQueue x force)).outs := by
+  rcases h with h | ⟨q, hq, hr⟩
+  · simp [step, State.removeQueue, h]
+  · simp [step, State.removeQueue, hq, hr]
+
+/-- In every reachable state the allocation ids inside a queue are pairwise distinct, so "once per active
+allocation" in `c18_remove_queue` is once per allocation *id*. -/
+theorem c18_ids_unique (c : Consts) (n : Nat) (s : State) (h : Reach (init c n) s) (x : Nat) (q : Queue)
+    (hq : s.getQueue x = some q) : (q.allocs.map (·.id)).Nodup :=
+  reach_idsNodup c n s h x q hq
+
+/-- Non-vacuity of `c18_remove_queue`: a queue with one running, one queued and one finished allocation. -/
+example :
+    let s0 := init ⟨10, 20, 0⟩ 1
+    let s1 := (step s0 (.addQueue ⟨3, 1, none⟩ (Limiter.new [0] 2 3) none)).st
+    let s2 := (step s1 (.tick 0 [1] (.ok [3] []) [.ok 7, .ok 8, .ok 9])).st
+    let s3 := (step s2 (.workerConnected 4 7)).st
+    let s4 := (step s3 (.refresh [(1, .statuses [(9, .failed)])])).st
+    (step s4 (.removeQueue 1 false)).outs = [.resp .hasRunning, .sched false] ∧
+    (step s4 (.removeQueue 1 true)).outs = [.rm 1 7, .rm 1 8, .evQRemoved 1, .resp .ok, .sched false] ∧
+    (step s4 (.removeQueue 1 true)).st.a2q = [] := by
+  decide
 
 end HqModel.C18
